@@ -15,7 +15,7 @@ import time
 
 from . import core, programs
 from . import c02_common as cc
-from . import c02_optable, c02_compat, c02_gen, c02_check, c02_catalogue
+from . import c02_optable, c02_compat, c02_gen, c02_check, c02_catalogue, c02_core0
 
 THEOREMS = ["C02_op_table_sound", "C02_op_assign_keeps_kind", "C02_un_table_sound", "C02_eq_complex_same_skeleton",
             "C02_eq_complex_compat", "C02_eq_complex_literal", "C02_eq_complex_literal_swapped", "C02_type_soundness_partial"]
@@ -113,6 +113,8 @@ def run(ctx):
     t1 = time.time()
     n_b, st_b = c02_compat.run(ctx, binary)
     t2 = time.time()
+    st_0 = c02_core0.run(ctx, binary, *ctx.c02_tables)
+    ctx.cov["core0_tie"] = st_0
     cat = run_catalogue(ctx, binary)
     st_c, dist = run_generated(ctx, binary, 1500 if ctx.quick() else 12000, 40 if ctx.quick() else 60)
     # the same generator with ONE typed position per program given an expression of another kind: a compiler that
@@ -124,9 +126,9 @@ def run(ctx):
     ctx.cov["generator_fault_injection"] = st_f
     ctx.cov["generator_distribution"] = dict(sorted(dist.items()))
     ctx.cov["wall_parts_s"] = {"optable": round(t1 - t0, 1), "compat": round(t2 - t1, 1), "programs": round(t3 - t2, 1)}
-    ctx.cov["evaluations"] = n_a + n_b + cat["entries"] + st_c["programs"] + st_f["programs"]
+    ctx.cov["evaluations"] = n_a + n_b + st_0["programs"] + cat["entries"] + st_c["programs"] + st_f["programs"]
     ctx.cov["distinct_nontrivial"] = st_a["accepted"] + st_b["accepted"] + st_c["completed"] + cat["accepted"]
-    ctx.cov["traces_validated_against_impl"] = n_a + n_b
+    ctx.cov["traces_validated_against_impl"] = n_a + n_b + st_0["programs"]
     ctx.cov["exhaustive"] = True
     ctx.cov["exhaustive_part"] = ("layer (a): all %d operator cells (25 binary operators x 6 x 6 kinds + 2 unary x 6), each with 2 operand-value variants; "
                                   "layers (b), (c) are not exhaustive" % ctx.cov["optable_cells"])
@@ -138,7 +140,7 @@ def run(ctx):
                                   "partial_proof": "(c) Core-0 fragment only (Types/Core0.v core0_sound): native kinds, every operator at every depth, declaration / re-binding / op-assign / if / while",
                                   "search": "(c) everything else -- lists, maps, optionals, functions, classes, aliases, from-loops, and checker + code generator + interpreter together: type-directed generation (well-typed and one-fault streams) and a boundary catalogue, no Coq model"}
     ctx.cov["trusted_base"] = ["Coq 8.16.1 kernel (coqc; vm_compute for the finite table and the examples)", "no axioms (Print Assumptions: closed under the global context)",
-                               "hand-written models Types/OpTable.v, Types/Compat.v, tied to get_output_type / run-time ops / eq_complex by this run",
+                               "hand-written models Types/OpTable.v, Types/Compat.v, Types/Core0.v, tied to get_output_type / run-time ops / eq_complex / the checker's verdict on Core-0 programs by this run",
                                "hook H2 (MSCRIPT_VERIF_TYPED_PRINT kind tags), the parser of `typeof` strings and the run-time error classifier in vlib/c02_common.py, c02_check.py",
                                "the program generator (vlib/c02_gen.py): its own typing rules only decide which programs are tried, not the verdict"]
     ctx.assumptions = ["`nil` is admissible for every static type (the property speaks of values other than nil; use of nil is a dynamic failure the language defines)",
